@@ -34,8 +34,8 @@ LEVEL_NOTE = ("Trusted: Lean kernel + propext/Quot.sound/Classical.choice, the h
 LEAN_MODULES = ["Clikit.Props.C16"]
 REQUIRED_THEOREMS = ["Clikit.Props.C16." + n for n in (
     "step_bounds", "bar_width", "percent_exact", "throttle", "throttle_spacing", "max_always_draws",
-    "finish_final", "finish_final_partial", "finish_final_full_fails", "ansi_line_latest", "plain_own_line",
-    "quiet_nothing")]
+    "finish_final", "finish_final_partial", "finish_final_full_fails", "ansi_line_latest", "ansi_line_latest_events",
+    "plain_own_line", "plain_single_lines", "quiet_nothing", "set_progress_clamps")]
 RULE = ("exhaustive small scope: every call sequence up to length 4 over a pool of 8 (quick) / 11 (thorough) public "
         "calls with clock advances (start, advance(1) after 0 / 1/64 / 1/4 s [/ 2 s], advance(3) after 1/16 s, "
         "set_progress(max), display, clear, finish, set_message), thorough also lengths 5-6 over a 6-call pool and "
